@@ -1211,7 +1211,7 @@ class SE3(SO3):
         :seealso: :func:`~delta`, :func:`~spatialmath.base.transform3d.delta2tr`
         :SymPy: supported
         """
-        return cls(base.trnorm(base.delta2tr(d)))
+        return cls(base.trnorm(base.delta2tr(d)), check=False)  # trnorm returns a proper SE(3) matrix
 
     @classmethod
     def Tx(cls, x):
